@@ -572,6 +572,20 @@ func Acc(p interface{}, kind int, site string) {
 	s.access(v.Pointer(), p, "field@"+site, kind == Write, site)
 }
 
+// AccQ is Acc for types that are touched all over the interpreter: the access is recorded for the race detector,
+// but it is not a scheduling point (function entries are; the detector works on clocks, not on interleavings).
+func AccQ(p interface{}, kind int, site string) {
+	s := S
+	if s == nil || s.cur == nil {
+		return
+	}
+	v := reflect.ValueOf(p)
+	if v.Kind() != reflect.Ptr || v.IsNil() {
+		return
+	}
+	s.access(v.Pointer(), p, "field@"+site, kind == Write, site)
+}
+
 // AccObj records an access to the object behind a package-level variable of a foreign type
 // (p is the pointer / interface held by the variable, or its address for value-typed variables).
 func AccObj(p interface{}, kind int, site string) {
@@ -592,7 +606,12 @@ func AccObj(p interface{}, kind int, site string) {
 
 // AccStruct records an access to every leaf field of the struct p points to
 // (whole-struct copy or assignment through a pointer: *p = v, v := *p).
-func AccStruct(p interface{}, kind int, site string) {
+func AccStruct(p interface{}, kind int, site string) { accStruct(p, kind, site, false) }
+
+// AccStructQ is AccStruct with AccQ's scheduling behaviour.
+func AccStructQ(p interface{}, kind int, site string) { accStruct(p, kind, site, true) }
+
+func accStruct(p interface{}, kind int, site string, quiet bool) {
 	s := S
 	if s == nil || s.cur == nil {
 		return
@@ -601,7 +620,9 @@ func AccStruct(p interface{}, kind int, site string) {
 	if v.Kind() != reflect.Ptr || v.IsNil() || v.Elem().Kind() != reflect.Struct {
 		return
 	}
-	s.yield(site)
+	if !quiet {
+		s.yield(site)
+	}
 	var walk func(x reflect.Value)
 	walk = func(x reflect.Value) {
 		for i := 0; i < x.NumField(); i++ {
